@@ -493,4 +493,34 @@ theorem specEncList_denotes : ∀ (xs : List Val) (e : Bytes), Val.wfL xs = true
     exact .cons x xs ex exs (specEnc_denotes x ex hw'.1 h1) (specEncList_denotes xs exs hw'.2 h2)
 end
 
+/-! ### facts about the published tables alone (no tie to the code; kept out of the property theorems) -/
+
+/-- the documented table is usable as a code: tags pairwise distinct and outside the immediate bytes -/
+theorem tag_table_unambiguous :
+    (tagTable.map (·.2)).Nodup
+    ∧ (tagTable.map (·.2)).all (fun t => decide (((t : Nat) : Int) < IMM_LO + IMM_BASE)) = true := by decide
+
+/-- the layout tables are usable: every handler number has exactly one layout -/
+theorem handler_args_total :
+    handlerArgs.map (·.1) = handlerTable.map (·.2) ∧ (replyShape.map (·.1)).all (fun h => (handlerArgs.lookup h).isSome) = true := by
+  decide
+
+/-- the search over the form table returns a fitting form with a minimal header -/
+theorem pick_is_shortest_fitting (forms : List Form) (n : Nat) (f : Form) (hf : f ∈ forms)
+    (hfit : f.fits n = true) : ∃ g, pick forms n = some g ∧ g ∈ forms ∧ g.fits n = true ∧ g.cost ≤ f.cost := by
+  obtain ⟨g, hg, hle⟩ := pick_min forms n f hf hfit
+  exact ⟨g, hg, (pick_sound forms n g hg).1, (pick_sound forms n g hg).2, hle⟩
+
+/-- the small integer 5 written as decimal text (legal, not shortest) -/
+theorem five_as_text : Denotes [0x16, 1, 0x35] (.int 5) := by
+  have h5 : intRepr 5 = [0x35] := by simp [intRepr, natDigits]
+  have := Denotes.intText 5 ⟨"TAG_INT_L1", TAG_INT_L1, .l1⟩ (by decide) (by rw [h5]; decide)
+  rw [h5] at this
+  exact this
+/-- a pair announced with TAG_TUP_L1 whose first member is 5 as text -/
+theorem pair_in_long_form : Denotes [0x14, 2, 0x16, 1, 0x35, 0x00] (.tuple [.int 5, .none]) :=
+  Denotes.tuple [.int 5, .none] ⟨"TAG_TUP_L1", TAG_TUP_L1, .l1⟩ [0x16, 1, 0x35, 0x00] (by decide) (by decide)
+    (DenotesL.cons (.int 5) [.none] [0x16, 1, 0x35] [0x00] five_as_text
+      (DenotesL.cons .none [] [0x00] [] Denotes.none DenotesL.nil))
+
 end Rpyc.Spec
